@@ -371,7 +371,11 @@ func genGovTraffic(r *Run, kind string) (Step, bool) {
 			if !amt.IsPositive() {
 				amt = FX(int64(1 + rng.IntN(50)))
 			}
-			txs = append(txs, Tx{K: "g_deposit", S: pickActor(), A: A("id", p.ID, "amount", amt.String())})
+			da := A("id", p.ID, "amount", amt.String())
+			if rng.IntN(100) < 25 {
+				da["legacy"] = "1"
+			}
+			txs = append(txs, Tx{K: "g_deposit", S: pickActor(), A: da})
 		}
 		return blk(txs...), true
 	case "vote":
@@ -392,7 +396,11 @@ func genGovTraffic(r *Run, kind string) (Step, bool) {
 			}
 			seen[voter] = true
 			opts := []string{"1", "1", "1", "1", "2", "3", "4", "1:0.7|3:0.3", "1:0.5|2:0.5", "1:0.4|3:0.35|4:0.25"}[rng.IntN(10)]
-			txs = append(txs, Tx{K: "g_vote", S: voter, A: A("id", p.ID, "opts", opts)})
+			va := A("id", p.ID, "opts", opts)
+			if rng.IntN(100) < 25 {
+				va["legacy"] = "1"
+			}
+			txs = append(txs, Tx{K: "g_vote", S: voter, A: va})
 		}
 		return blk(txs...), true
 	case "time":
